@@ -15,6 +15,7 @@ type ftree struct {
 	field, op string
 	val       any // leaf value
 	subs      []*ftree
+	label     string // and / or nodes: what the caller left in Field (ignored by the logic)
 }
 
 func (f *ftree) goFilter() *jsonapi.Filter {
@@ -26,7 +27,7 @@ func (f *ftree) goFilter() *jsonapi.Filter {
 		if subs == nil {
 			subs = []*jsonapi.Filter{}
 		}
-		return &jsonapi.Filter{Op: f.op, Val: subs}
+		return &jsonapi.Filter{Field: f.label, Op: f.op, Val: subs}
 	}
 	return &jsonapi.Filter{Field: f.field, Op: f.op, Val: f.val}
 }
@@ -247,6 +248,9 @@ func randFilterTree(r *rng, t typeSpec, depth int) *ftree {
 	if depth > 0 && r.chance(2, 3) {
 		n := r.intn(4)
 		f := &ftree{op: pick(r, []string{"and", "or"})}
+		if r.chance(1, 4) {
+			f.label = pick(r, []string{"label", "nope", "id", pick(r, t.fields).name})
+		}
 		for i := 0; i < n; i++ {
 			f.subs = append(f.subs, randFilterTree(r, t, depth-1))
 		}
@@ -298,6 +302,13 @@ func runC10(c *ctx) {
 			nilp := func() any { return randValueNil(fs.code) }
 			left = append(left, nilp())
 			right = append(right, nilp())
+			// the filter's value and the resource's value are the very same pointer
+			for _, v := range d[:min(len(d), 3)] {
+				p := ptrTo(v)
+				for _, op := range c10Ops {
+					c10Case(c, all, []setOp{{fs.name, p}}, &ftree{field: fs.name, op: op, val: p}, "shared-pointer")
+				}
+			}
 		}
 		for _, a := range left {
 			for _, b := range right {
@@ -363,6 +374,18 @@ func runC10(c *ctx) {
 	c10Case(c, all, nil, &ftree{op: "and"}, "empty-and")
 	c10Case(c, all, nil, &ftree{op: "or"}, "empty-or")
 	c10Case(c, all, nil, &ftree{field: "nope", op: "=", val: "x"}, "unknown-field")
+	// labelled logical nodes, and the all-zero filter (also as a child)
+	yes, no := &ftree{field: "int", op: "=", val: 5}, &ftree{field: "int", op: "=", val: 6}
+	zero := &ftree{}
+	for _, lab := range []string{"label", "nope", "int", "one", "many"} {
+		for _, f := range []*ftree{{op: "and", label: lab}, {op: "or", label: lab}, {op: "and", label: lab, subs: []*ftree{yes}}, {op: "or", label: lab, subs: []*ftree{no, yes}},
+			{op: "and", label: lab, subs: []*ftree{yes, no}}, {op: "or", label: lab, subs: []*ftree{no}}} {
+			c10Case(c, all, []setOp{{"int", 5}}, f, "labelled-logical-node")
+		}
+	}
+	for _, f := range []*ftree{zero, {op: "or", subs: []*ftree{zero}}, {op: "and", subs: []*ftree{zero}}, {op: "and", subs: []*ftree{yes, zero}}, {op: "or", subs: []*ftree{no, zero}}} {
+		c10Case(c, all, []setOp{{"int", 5}}, f, "zero-filter")
+	}
 }
 
 func randValueNil(code int) any {
